@@ -109,6 +109,41 @@ func genWOpHint(s sim.Source, pool []*model.Pattern, methods []string, tag int, 
 				}
 			}
 		}
+		lexOdds := 1 // out of 5
+		for _, p := range pool {
+			if p.Raw == "/s/k" {
+				lexOdds = 3 // pools of the sibling shape are mostly registered in order
+			}
+		}
+		if s.Intn("lexicalorder", 5) < lexOdds {
+			// routes are often registered in lexical order: the next operation registers a pool pattern that sorts
+			// after everything registered under the method (a new last edge somewhere along the rightmost branch)
+			// (under the method that has most routes so far: one tree grows in order)
+			cnt := map[string]int{}
+			for _, rt := range h.set.Routes() {
+				cnt[rt.Method]++
+			}
+			for _, m := range methods {
+				if cnt[m] > cnt[op.Method] {
+					op.Method = m
+				}
+			}
+			last := ""
+			for _, rt := range h.set.Routes() {
+				if rt.Method == op.Method && rt.Pattern > last {
+					last = rt.Pattern
+				}
+			}
+			var after []int
+			for i, p := range pool {
+				if p.Raw > last {
+					after = append(after, i)
+				}
+			}
+			if len(after) > 0 {
+				op.Pat, present = after[s.Intn("lexicalnext", len(after))], false
+			}
+		}
 		r := s.Intn("biased", 20)
 		switch {
 		case present && r < 9:
